@@ -20,6 +20,54 @@ pub fn format_statement(expr: &SpannedExpr, max_columns: Option<usize>, is_first
     guard_leading_minus(format_expr(expr, max_columns), is_first)
 }
 
+/// Format a top-level statement whose original text is known. The grammar admits comments in
+/// places the syntax tree has no slot for (between call arguments, after an operator, inside
+/// parentheses, ...), and the formatter cannot print what the tree does not carry. A statement
+/// whose comments would not all survive formatting is therefore kept as it was written instead
+/// of being printed without them.
+pub fn format_statement_preserving_comments(
+    expr: &SpannedExpr,
+    original: &str,
+    max_columns: Option<usize>,
+    is_first: bool,
+) -> String {
+    let formatted = format_statement(expr, max_columns, is_first);
+    if comment_texts(&formatted) == comment_texts(original) {
+        formatted
+    } else {
+        guard_leading_minus(original.trim_end().to_string(), is_first)
+    }
+}
+
+/// The `//` comments of a piece of source text, in order (a `//` inside a string literal is not
+/// a comment).
+fn comment_texts(source: &str) -> Vec<&str> {
+    let mut comments = Vec::new();
+    let mut open_quote: Option<char> = None;
+    let mut chars = source.char_indices().peekable();
+    while let Some((start, c)) = chars.next() {
+        match open_quote {
+            Some(quote) => {
+                if c == quote {
+                    open_quote = None;
+                }
+            }
+            None if c == '"' || c == '\'' => open_quote = Some(c),
+            None if c == '/' && matches!(chars.peek(), Some((_, '/'))) => {
+                let end = source[start..]
+                    .find('\n')
+                    .map_or(source.len(), |offset| start + offset);
+                comments.push(source[start..end].trim_end());
+                while chars.peek().is_some_and(|(i, _)| *i < end) {
+                    chars.next();
+                }
+            }
+            None => {}
+        }
+    }
+    comments
+}
+
 fn guard_leading_minus(formatted: String, is_first: bool) -> String {
     if !is_first && formatted.starts_with('-') {
         format!("({})", formatted)
